@@ -704,7 +704,7 @@ pub fn random_op(r: &mut Rng, u: &Universe, w: &World, last: &Option<Op>, live: 
                 Op::Clean { full: true, a: 0, b: 0 }
             } else {
                 let p0 = pick_page(r, u, 0);
-                let (a, b) = match r.below(8) {
+                let (a, b) = match r.below(12) {
                     0 => (p0, p0),                                                   // single page
                     1 => (p0 & !0x1f_ffff, (p0 & !0x1f_ffff) | 0x1f_f000),           // one level-1 table
                     2 => (p0 & !0x3fff_ffff, (p0 & !0x3fff_ffff) | 0x3fff_f000),     // one level-2 table
@@ -712,7 +712,11 @@ pub fn random_op(r: &mut Rng, u: &Universe, w: &World, last: &Option<Op>, live: 
                     4 => (0, 0xffff_ffff_ffff_f000),                                 // everything, as a range
                     5 => (0x0000_7fff_ffe0_0000, 0xffff_8000_001f_f000),             // spanning the gap
                     6 => (p0, pick_page(r, u, 0)),                                   // arbitrary, maybe reversed
-                    _ => (p0, 0xffff_ffff_ffff_f000),                                // ending at the last page
+                    7 => (p0, 0xffff_ffff_ffff_f000),                                // ending at the last page
+                    8 => ((p0 & !0x1f_ffff) | 0x5000, (p0 & !0x1f_ffff) | 0x2000),    // reversed inside one level-1 table
+                    9 => ((p0 & !0x3fff_ffff) | 0x60_0000, (p0 & !0x3fff_ffff) | 0x20_1000), // reversed, two level-1 tables
+                    10 => (p0 | 0x1000, p0),                                         // reversed neighbours
+                    _ => (canon((p0 & !0x7f_ffff_ffff) | 0x8000_0000), canon((p0 & !0x7f_ffff_ffff) | 0x4000_0000)), // reversed, two level-2 tables
                 };
                 Op::Clean { full: false, a, b }
             }
@@ -1028,11 +1032,20 @@ pub fn run_rpt_new(out: &mut Out, seed: u64, n: u64) {
         let rix = pick_recursive_index(&mut r) as u64;
         // the four indices: all equal, or one position differing (by one, or arbitrary)
         let mut idx = [rix; 4];
-        let variant = r.below(6);
+        let variant = r.below(9);
         if (1..=4).contains(&variant) {
             let pos = (variant - 1) as usize;
             let alt = if r.chance(1, 2) { rix ^ 1 } else { r.below(256) };
             idx[pos] = if alt == 0 && pos == 0 { 1 } else { alt };
+        } else if variant >= 6 {
+            // any pattern over two values: (a,a,b,b), (a,b,b,a), (a,b,a,b), (a,a,a,b), ...
+            let alt = if r.chance(1, 2) { rix ^ 1 } else { 1 + r.below(255) };
+            let pat = 1 + r.below(15);
+            for (pos, slot) in idx.iter_mut().enumerate() {
+                if pat & (1 << pos) != 0 {
+                    *slot = alt;
+                }
+            }
         }
         let va = (idx[0] << 39) | (idx[1] << 30) | (idx[2] << 21) | (idx[3] << 12);
         if idx[0] >= 256 || va < 0x10000 {
